@@ -21,11 +21,40 @@ import (
 func history(c *lib.Ctx, sc *lib.Script, fails *[]lib.OracleFail, rng *lib.RNG, depth, steps int) {
 	g := &sg.Gen{R: rng, Depth: depth, Hit: c.Hit}
 	k := sg.NewCase(c, sc, fails, true)
+	// The statement quantifies over histories of inserts, updates, deletes and finds on a store – whatever indexes
+	// that store has (C10.find_eq_ref / store_refines_unique are stated for histories with index operations). One
+	// history in eight is therefore the directed family around a partial index whose filter looks at a non-key
+	// field (seeded change c10g: an update that moves a document across the index filter without touching a key),
+	// and one in five of the others has a few random index declarations in it.
+	if rng.Chance(1, 8) {
+		ops, idx, at := g.PartialTransition()
+		for i, o := range ops {
+			if len(*fails) != 0 {
+				return
+			}
+			if i == at {
+				k.Do(idx)
+			}
+			k.Do(o)
+			if o.Kind != "find" {
+				k.Readback()
+			}
+		}
+		c.Hit("history:partial-index-transition")
+		return
+	}
+	indexed := rng.Chance(1, 5)
+	if indexed {
+		c.Hit("history:with-index-declarations")
+	}
 	// start from a few documents so that early finds are not all empty
 	for i := 0; i < rng.Range(0, 4); i++ {
 		k.Do(sg.Op{Kind: "ins", Docs: []sg.Map{g.Doc()}})
 	}
 	for s := 0; s < steps && len(*fails) == 0; s++ {
+		if indexed && rng.Chance(1, 6) {
+			k.Do(g.IndexSpec())
+		}
 		filter := func() sg.Map {
 			switch rng.Weighted([]int{12, 3, 1, 1}) {
 			case 0:
